@@ -737,6 +737,7 @@ def check(run):
     near_rng = _random.Random(run.seed * 7919 + 13)
     g2 = G.Gen(near_rng, 2)
     near = []           # (query text, [member texts])
+    near_ast = {}
     for n in range(nnear):
         for _ in range(20):
             base = G.normalize_shape(g2.pattern())
@@ -748,7 +749,9 @@ def check(run):
         texts = []
         for ast, _name in vs:
             try:
-                texts.append(G.print_o(G.normalize_shape(ast), near_rng, 0.05)[0])
+                shaped = G.normalize_shape(ast)
+                texts.append(G.print_o(shaped, near_rng, 0.05)[0])
+                near_ast[texts[-1]] = shaped
             except Exception:  # noqa: BLE001
                 pass
         if len(texts) < 3:
@@ -764,6 +767,39 @@ def check(run):
     pair_keys = sorted({(q, x) for q, c in near for x in c})
     pair_res = dict(zip(pair_keys, common.run_impl("c09_impl", [{"op": "equiv", "p": q, "q": x} for q, x in pair_keys])))
     near_res = common.run_impl("c09_impl", [{"op": "find", "p": q, "ps": c} for q, c in near])
+    # the near-duplicates themselves: a member that only differs from a normalising base in one constant must
+    # not make the comparison raise; a pair reported equivalent must match the same observation sequences
+    stats["near_duplicate_pairs"] = len(pair_keys)
+    stats["near_duplicate_pairs_reported_equal"] = 0
+    n_crash = n_unsound = 0
+    for (q, x) in pair_keys:
+        r = pair_res[(q, x)]
+        if q not in near_ast or x not in near_ast:
+            continue
+        base_ok = not is_exc(pair_res.get((q, q), {"exc": 1}))
+        if is_exc(r):
+            if base_ok and n_crash < 5 and r.get("exc") != "CaseTimeout":
+                one = common.run_impl("c09_impl", [{"op": "norm", "p": x}], procs=1)[0]
+                stage = "parse" if is_exc(one.get("parse")) else "norm" if is_exc(one.get("norm")) else None
+                fid = classify_crash(near_ast[x], stage, one[stage]) if stage else None
+                if fid is None or stage is None:
+                    n_crash += 1
+                    run.violations.append(Violation(
+                        "equivalent_patterns raises %s (%s) on %r / %r (near-duplicates of a pattern that normalises)"
+                        % (r["exc"], r.get("where"), q, x), {"kind": "equiv-crash", "p": q, "q": x, "exc": r}))
+            continue
+        if r["r"] is True and q != x:
+            stats["near_duplicate_pairs_reported_equal"] += 1
+            w = E.differ(near_rng, near_ast[q], near_ast[x], search_count)
+            if w is not None and n_unsound < 5:
+                n_unsound += 1
+                seq = E.seq_from_json(w["seq"])
+                run.violations.append(Violation(
+                    "equivalent_patterns(%r, %r) is True but the patterns match different observation sequences" % (q, x),
+                    {"kind": "unsound", "p": q, "q": x, "ast_p": E.to_json(near_ast[q]), "ast_q": E.to_json(near_ast[x]),
+                     "seq": w["seq"], "observations": w["observations"],
+                     "matches_p": w["matches_first"], "matches_q": w["matches_second"]},
+                    finding=classify_unsound(near_ast[q], near_ast[x], seq)))
     stats["find_near_duplicates"] = 0
     stats["find_near_duplicates_some_but_not_all"] = 0
     for (q, c), r in zip(near, near_res):
